@@ -34,6 +34,9 @@ async function workerMain(id, tier, shard, nshards, seed) {
   process.env.VERIF_TIER_EFFECTIVE = tier; // judges that explore extra environment answers in the thorough tier read this
   const check = loadCheck(id);
   const driver = new Driver();
+  // evaluated code must not be able to end the worker asynchronously: a rejection nobody observed is reported as an
+  // engine error (the harness failed to own that outcome), the exploration goes on
+  process.on('unhandledRejection', (e) => { if (typeof st !== 'undefined' && st.engineErrors.length < 50) st.engineErrors.push({ error: 'unhandled rejection in evaluated code: ' + (e && e.stack || e).toString().slice(0, 300) }); });
   const st = {
     evaluations: 0, states: 0, transitions: 0, roots: 0, judged: 0, skipped: 0,
     nontrivial: 0, engineErrors: [], spaces: {}, hashes: new Set(), ntHashes: new Set(),
